@@ -1,5 +1,5 @@
 """C09 - context flows from Subscribe through every callback, never nil (DESIGN 6/C09): Ops.tla is the definition; TLC enumerates, the real code is replayed."""
-import vlib, parts_multi, tracecheck, parts_pipeline as pp, common
+import vlib, parts_creation, parts_multi, tracecheck, parts_pipeline as pp, common
 
 PID = 'C09'
 
@@ -11,6 +11,7 @@ def main(argv):
     # a hot source: notifications carry a context of the producer's own; what the operators attach mid-pipeline must still arrive, on all three kinds
     pp.run(rep, PID, common.pipeline_cfgs(rep, 'hot'), modes='ctl-unsafe,ctl-safe')
     pp.run(rep, PID, common.pipeline_cfgs(rep, 'faults')[:1], modes='ctl-unsafe')   # the Error raised for a panic carries the context too
+    parts_creation.run(rep, PID, rep.tier == 'thorough')
     # multi-source and higher-order operators (zip, combine-latest, merge, ...): the context of every output is the one of the arrival that caused it
     parts_multi.run(rep, PID, rep.tier == 'thorough')
     parts_multi.run_ho(rep, PID, rep.tier == 'thorough')
@@ -31,6 +32,8 @@ def replay(path):
     if path.endswith('.ndjson'):
         return tracecheck.replay(PID, 'CtxTrace', 'CtxTrace_x.cfg', path)
     import json
+    if json.load(open(path))['replay'].get('module') == 'Creation':
+        return parts_creation.replay_case(PID, path)
     if json.load(open(path))['replay'].get('module') in ('MultiGen', 'HOGen'):
         return parts_multi.replay_case(PID, path)
     return pp.replay_case(PID, path)
